@@ -46,7 +46,7 @@ theorem fileEntry_cases (pf : Bytes → Option UInt64) (items : List Item) (hel 
   split
   · rename_i pos nodes st he
     rw [he] at h
-    have hr := h.2 trivial
+    have hr := h.2.1 trivial
     left
     exact ⟨_, rfl, by simp [hr]⟩
   · right; right; rfl
